@@ -9,6 +9,10 @@
 import SeedProofs.Lemmas.C12Map
 import SeedProofs.Lemmas.C12Heap
 import SeedProofs.Lemmas.C12Lit
+import SeedProofs.Lemmas.NoCrash
+import SeedProofs.C19
+-- audit: Seed.WF.sorted Seed.Safe.state_wf Seed.Safe.state_sorted Seed.safeAll Seed.keepsWF Seed.evalProg_safe Seed.evalProg_state_wf Seed.evalProg_ok_sorted Seed.evalProg_err_wf Seed.evalProg_err_sorted Seed.evalProg_state_sorted
+-- audit: Seed.evalExpr_keeps_sorted Seed.evalStmts_keeps_sorted Seed.evalStmt_keeps_sorted Seed.evalExpr_obj_sorted Seed.objInsert_sorted Seed.objInsert_foldl_sorted Seed.Sorted.filter Seed.set_obj_wf Seed.alloc_wf Seed.wf_init
 namespace Seed.C12
 open Seed Gen
 
@@ -314,5 +318,187 @@ theorem opassign_present {σ : State} {a : Addr} {props : ObjMap} (n : Nat) (nam
   simp only [hk, opAssignValue, hop, Res.map, Res.bind, hm]
 
 example : applyBinOp 1 σex .Sum (9, 2) (Val.int 1) (Val.int 2) = .ok (.int 3) σex := by rfl
+
+/-! ## Part 3 — the sortedness invariant holds in every reachable state
+
+`Sorted` was a hypothesis of the theorems above.  It is an invariant of the evaluator: `WF σ` (Lemmas/WF.lean)
+contains "every object cell of `σ` is `Sorted`", the initial state is `WF`, and every one of the 23 evaluator
+functions, started in a `WF` state, ends in a `WF` state — whether it succeeds, reports an error or crashes with
+`lock` (`Seed.safeAll`, `Seed.keepsWF`; object cells are written at four places: the literal, whose accumulator
+only grows by `objInsert`; the two `objInsert`s of `bindProp`; the `filter` of the rest pattern `{…, ..r}`). -/
+
+/-- **C12.** when a program ends normally, every object cell of its final heap is strictly sorted by key -/
+theorem objects_always_sorted {n : Nat} {stmts : List Stmt} {σ : State} (h : evalProg n stmts = .ok () σ)
+    {a : Addr} {m : ObjMap} (hm : σ.getObj a = some m) : Sorted m :=
+  evalProg_ok_sorted n stmts σ h a m hm
+
+/-- … and the same when it ends in a reported error … -/
+theorem objects_always_sorted_err {n : Nat} {stmts : List Stmt} {e : Err} {σ : State} (h : evalProg n stmts = .err e σ)
+    {a : Addr} {m : ObjMap} (hm : σ.getObj a = some m) : Sorted m :=
+  evalProg_err_sorted n stmts e σ h a m hm
+
+/-- … or in any outcome that carries a state at all (success, error, `lock` crash) -/
+theorem objects_always_sorted_any {n : Nat} {stmts : List Stmt} {σ : State} (h : (evalProg n stmts).state? = some σ)
+    {a : Addr} {m : ObjMap} (hm : σ.getObj a = some m) : Sorted m :=
+  evalProg_state_sorted n stmts σ h a m hm
+
+/-- **C12.** the invariant at every point of evaluation: each of the 23 evaluator functions, at every fuel, takes
+    a well-formed state (all object cells sorted) to a well-formed state, whatever the outcome.  Since every state an
+    evaluator function is called with is either `State.init` or the state carried by the result of an earlier call,
+    all reachable states are well-formed. -/
+theorem reachable_sorted (n : Nat) : KeepsWF n := keepsWF n
+
+/-- `reachable_sorted` spelled out for expressions -/
+theorem reachable_sorted_expr {n : Nat} {σ σ' : State} {sc : List Addr} {e : Expr} (hw : WF σ) (hs : ScOK σ sc)
+    (h : (evalExpr n σ sc e).state? = some σ') : WF σ' ∧ ∀ a m, σ'.getObj a = some m → Sorted m :=
+  evalExpr_keeps_sorted n σ sc e hw hs σ' h
+
+/-- `reachable_sorted` spelled out for statement sequences -/
+theorem reachable_sorted_stmts {n : Nat} {σ σ' : State} {sc : List Addr} {stmts : List Stmt} (hw : WF σ) (hs : ScOK σ sc)
+    (h : (evalStmts n σ sc stmts).state? = some σ') : WF σ' ∧ ∀ a m, σ'.getObj a = some m → Sorted m :=
+  evalStmts_keeps_sorted n σ sc stmts hw hs σ' h
+
+/-- the example state is well-formed -/
+theorem σex_wf : WF σex ∧ ScOK σex [0] := by
+  refine ⟨?_, by simp, ?_⟩
+  · intro a cell h
+    match a with
+    | 0 =>
+      cases h
+      intro e he
+      simp only [List.mem_cons, List.not_mem_nil, or_false] at he
+      rcases he with rfl | rfl | rfl
+      · exact SValOK.plain (v := .obj 1) (by rfl)
+      · exact SValOK.plain trivial
+      · exact SValOK.plain trivial
+    | 1 =>
+      cases h
+      refine ⟨?_, by unfold Sorted; decide⟩
+      intro e he
+      simp only [List.mem_cons, List.not_mem_nil, or_false] at he
+      rcases he with rfl | rfl
+      · exact SValOK.plain trivial
+      · exact SValOK.plain trivial
+    | k + 2 => simp [σex] at h
+  · intro a ha
+    simp only [List.mem_cons, List.not_mem_nil, or_false] at ha
+    subst ha; rfl
+
+example : (evalExpr 1 σex [0] eO).state? = some σex := by with_unfolding_all rfl
+
+/-- a program used by the examples: a literal written out of order, the three write paths, a rest pattern and a
+    spread -/
+def srcSorted : List Char :=
+  c!"o := {\"b\": 1, \"a\": 2};\no.A = 3;\no[\"b\"] += 1;\n{a, ..r} := o;\nq := {\"z\": 0, o.., \"A\": 9};\n"
+def progSorted : List Stmt := match parseProg srcSorted with | .ok s => s | _ => []
+def isOk {α : Type} : Res α → Bool | .ok _ _ => true | _ => false
+def keysAt {α : Type} (r : Res α) (a : Addr) : Option (List (List Char)) :=
+  (r.state?.bind (·.getObj a)).map (·.map Prod.fst)
+
+example : progSorted.length = 5 := by decide +kernel
+/-- the hypotheses of `objects_always_sorted` on a concrete run: `o`, `r` and `q` are the cells 1, 2, 3 -/
+example : isOk (evalProg 30 progSorted) = true ∧
+    keysAt (evalProg 30 progSorted) 1 = some [c!"A", c!"a", c!"b"] ∧
+    keysAt (evalProg 30 progSorted) 2 = some [c!"A", c!"b"] ∧
+    keysAt (evalProg 30 progSorted) 3 = some [c!"A", c!"a", c!"b", c!"z"] := by decide +kernel
+
+example : ∃ σ m, evalProg 30 progSorted = .ok () σ ∧ σ.getObj 3 = some m ∧ m.map Prod.fst = [c!"A", c!"a", c!"b", c!"z"] := by
+  have hk : keysAt (evalProg 30 progSorted) 3 = some [c!"A", c!"a", c!"b", c!"z"] := by decide +kernel
+  have ho : isOk (evalProg 30 progSorted) = true := by decide +kernel
+  unfold keysAt at hk
+  cases h : evalProg 30 progSorted with
+  | ok u σ =>
+    rw [h] at hk
+    cases hm : σ.getObj 3 with
+    | none => simp [Res.state?, hm] at hk
+    | some m => exact ⟨σ, m, rfl, hm, by simpa [Res.state?, hm] using hk⟩
+  | err e σ => rw [h] at ho; cases ho
+  | crash w σ => rw [h] at ho; cases ho
+  | timeout => rw [h] at ho; cases ho
+
+/-- an error outcome carrying a state with an object (hypotheses of `objects_always_sorted_err`) -/
+def progSortedErr : List Stmt :=
+  match parseProg c!"o := {\"b\": 1, \"a\": 2};\no.c += 1;\n" with | .ok s => s | _ => []
+example : isOk (evalProg 30 progSortedErr) = false ∧ keysAt (evalProg 30 progSortedErr) 1 = some [c!"a", c!"b"] := by
+  decide +kernel
+
+/-! ### the theorems of part 2 without the `Sorted` hypothesis -/
+
+/-- in a well-formed state `for` over an object visits its keys in strictly ascending order -/
+theorem for_keys_ascending_wf {σ : State} {a : Addr} {m : ObjMap} (hw : WF σ) (hm : σ.getObj a = some m) :
+    toPairs σ (.obj a) = some (some (m.map fun (k, x) => (SVal.plain (.str (utf8Encode k)), x))) ∧
+    (m.map Prod.fst).Pairwise fun k k' => keyLt k k' = true :=
+  ⟨for_ascending hm, for_keys_ascending (hw.sorted hm)⟩
+
+/-- … in particular in the final state of any program -/
+theorem for_keys_ascending_reached {n : Nat} {stmts : List Stmt} {σ : State} (h : evalProg n stmts = .ok () σ)
+    {a : Addr} {m : ObjMap} (hm : σ.getObj a = some m) :
+    toPairs σ (.obj a) = some (some (m.map fun (k, x) => (SVal.plain (.str (utf8Encode k)), x))) ∧
+    (m.map Prod.fst).Pairwise fun k k' => keyLt k k' = true :=
+  for_keys_ascending_wf (evalProg_ok_wf n stmts σ h) hm
+
+/-- … and at the point where it matters: a `for` statement met anywhere during evaluation (the state `σ` it starts in
+    is well-formed) whose iterable evaluates to an object runs its body over that object's keys in strictly ascending
+    order -/
+theorem for_stmt_keys_ascending {n : Nat} {σ σ1 : State} {sc : List Addr} {lhs iter : Expr} {stmts : List Stmt} {a : Addr}
+    {s : Option Val} (hw : WF σ) (hs : ScOK σ sc) (h : evalExpr n σ sc iter = .ok ⟨.obj a, s⟩ σ1) :
+    ∃ m, σ1.getObj a = some m ∧ (m.map Prod.fst).Pairwise (fun k k' => keyLt k k' = true) ∧
+      evalStmt (n + 1) σ sc (.For lhs iter stmts) =
+        evalFor n σ1 sc lhs (m.map fun (k, x) => (SVal.plain (.str (utf8Encode k)), x)) stmts := by
+  obtain ⟨m, hm, hsm⟩ := evalExpr_obj_sorted n σ sc iter hw hs a s σ1 h
+  refine ⟨m, hm, for_keys_ascending hsm, ?_⟩
+  rw [evalStmt, h]
+  simp only [Res.bind, toPairs, hm]
+
+example : WF σex ∧ ScOK σex [0] ∧ evalExpr 1 σex [0] eO = .ok ⟨.obj 1, none⟩ σex :=
+  ⟨σex_wf.1, σex_wf.2, by with_unfolding_all rfl⟩
+
+/-- `Seed.C19.render_keys_ascending` in a well-formed state: what `print` writes for an object lists the keys in
+    strictly ascending order -/
+theorem render_keys_ascending_wf {σ : State} {a : Addr} {props : ObjMap} {n : Nat} {out : List Char} (hw : WF σ)
+    (hg : σ.getObj a = some props) (hr : render n σ [] (.obj a) = .ok out) :
+    ∃ rs : List (List Char), C19.Forall2 (fun p s => ∃ m, render m σ [a] p.2.v = .ok s) props rs ∧
+      out = c!"{\n" ++ (List.zipWith (fun p s => C19.propLine p.1 s) props rs).flatten ++ c!"}" ∧
+      (props.map Prod.fst).Pairwise (fun k k' => keyLt k k' = true) :=
+  C19.render_keys_ascending hg (hw.sorted hg) hr
+
+/-- … in particular in the final state of any program -/
+theorem render_keys_ascending_reached {k : Nat} {stmts : List Stmt} {σ : State} (h : evalProg k stmts = .ok () σ)
+    {a : Addr} {props : ObjMap} {n : Nat} {out : List Char}
+    (hg : σ.getObj a = some props) (hr : render n σ [] (.obj a) = .ok out) :
+    ∃ rs : List (List Char), C19.Forall2 (fun p s => ∃ m, render m σ [a] p.2.v = .ok s) props rs ∧
+      out = c!"{\n" ++ (List.zipWith (fun p s => C19.propLine p.1 s) props rs).flatten ++ c!"}" ∧
+      (props.map Prod.fst).Pairwise (fun k k' => keyLt k k' = true) :=
+  render_keys_ascending_wf (evalProg_ok_wf k stmts σ h) hg hr
+
+example : σex.getObj 1 = some [(c!"A", SVal.plain .null), (c!"a", SVal.plain (.int 1))] ∧
+    render 5 σex [] (.obj 1) = .ok c!"{\n    \"A\": <null>,\n    \"a\": 1,\n}" := ⟨by rfl, by with_unfolding_all rfl⟩
+
+/-- `assign_then_read` in a well-formed state (no `Sorted` hypothesis), with the new state well-formed again -/
+theorem assign_then_read_wf {σ : State} {a : Addr} {props : ObjMap} (name : List Char) {rhs : SVal} (hw : WF σ)
+    (hr : SValOK σ rhs) (hm : σ.getObj a = some props) :
+    let σ' := σ.set a (.obj (objInsert name rhs props))
+    WF σ' ∧ ∃ props', σ'.getObj a = some props' ∧ Sorted props' ∧
+      objGet name props' = some rhs ∧
+      (∀ k, k ≠ name → objGet k props' = objGet k props) ∧
+      props'.length = props.length + (if (objGet name props).isSome then 0 else 1) ∧
+      (∀ b, b ≠ a → σ'.heap[b]? = σ.heap[b]?) :=
+  ⟨set_obj_wf hw hm (objInsert_ok (hw.obj hm) hr) (objInsert_sorted (hw.sorted hm)),
+    assign_then_read name rhs hm (hw.sorted hm)⟩
+
+example : WF σex ∧ SValOK σex (SVal.plain (.int 5)) ∧
+    σex.getObj 1 = some [(c!"A", SVal.plain .null), (c!"a", SVal.plain (.int 1))] :=
+  ⟨σex_wf.1, SValOK.plain trivial, by rfl⟩
+
+/-- in a well-formed state an object is determined by its lookups: two objects that agree on every key have the
+    same cell contents, hence the same `for` sequence -/
+theorem wf_obj_ext {σ : State} {a b : Addr} {m m' : ObjMap} (hw : WF σ) (ha : σ.getObj a = some m)
+    (hb : σ.getObj b = some m') (e : ∀ k, objGet k m = objGet k m') :
+    m = m' ∧ toPairs σ (.obj a) = toPairs σ (.obj b) := by
+  have := sorted_ext (hw.sorted ha) (hw.sorted hb) e
+  subst this
+  exact ⟨rfl, by rw [for_ascending ha, for_ascending hb]⟩
+
+example : WF σex ∧ σex.getObj 1 = some [(c!"A", SVal.plain .null), (c!"a", SVal.plain (.int 1))] := ⟨σex_wf.1, by rfl⟩
 
 end Seed.C12
